@@ -61,18 +61,12 @@ def cpython_inlining_bug_shape(tree):
         if node[0] != "class":
             continue
         kids = [c for c in node[2] if c[0] in ("lambda", "comp")]
-        targets = [c for c in kids if c[0] == "comp" and c[1] in ("target", "target_tuple")]
-        if not targets:
-            continue
-        for c in kids:
-            for sub, _ in scope.walk(c):
-                if sub is c and c in targets:
-                    continue
-                if sub[1] != "none" and not (c in targets and sub is c):
-                    if c not in targets or sub is not c:
-                        others = [k for k in kids if k is not c] if c in targets else [k for k in targets]
-                        if others:
-                            return True
+        for t in kids:
+            if t[0] != "comp" or t[1] not in ("target", "target_tuple"):
+                continue
+            for c in kids:
+                if c is not t and any(sub[1] != "none" for sub, _ in scope.walk(c)):
+                    return True
     return False
 
 
